@@ -1,11 +1,5 @@
 package main
 
-import (
-	"fmt"
-
-	"goa.design/goa/v3/expr"
-)
-
 func p(n string) *Att { return &Att{T: &Type{K: "prim", Prim: n}} }
 func obj(fs ...Field) *Att {
 	return &Att{T: &Type{K: "object", Fields: fs}}
@@ -44,6 +38,10 @@ func corpus() []*Graph {
 		{Users: []User{{Name: "R", Result: true, Identifier: "application/vnd.r", Att: obj(fl("id", p("int")), fl("name", p("string"))),
 			Views: []View{{"default", []string{"id", "name"}}, {"tiny", []string{"id"}}}}}, Root: ref(0)},
 		{Root: &Att{T: &Type{K: "map", Key: p("string"), Elem: arr(obj(fl("k", p("any"))))}}},
+		// two structurally equal user types that refer to each other: A = {next: B}, B = {next: A}
+		{Users: []User{{Name: "A", Att: obj(fl("next", ref(1)))}, {Name: "B", Att: obj(fl("next", ref(0)))}}, Root: obj(fl("x", ref(0)), fl("y", ref(1)))},
+		// a meta map without entries
+		{Users: []User{{Name: "T", Att: &Att{T: &Type{K: "object", Fields: []Field{fl("x", &Att{T: &Type{K: "prim", Prim: "int"}, EmptyMeta: true})}}, EmptyMeta: true}}}, Root: ref(0)},
 	}
 }
 
@@ -130,7 +128,7 @@ func (r *run) streams(tier string) {
 	}
 	// 1. fixed corpus
 	for _, g := range append(corpus(), docsCorpus()...) {
-		r.checkGraph(g, "corpus", false)
+		r.checkGraph(g, "corpus", false, nil)
 	}
 	// 2. generated graphs
 	for i := 0; i < nGraphs; i++ {
@@ -139,7 +137,7 @@ func (r *run) streams(tier string) {
 			g.cfg.maxFields = 7
 			g.cfg.maxDepth = min(g.cfg.maxDepth, 3)
 		}
-		r.checkGraph(g.graph(), "graphs", false)
+		r.checkGraph(g.graph(), "graphs", false, nil)
 	}
 	// 3. pairs inside the class where Equal is claimed to decide structural equality
 	made := 0
@@ -173,7 +171,8 @@ func (r *run) streams(tier string) {
 	// 4. one Object pointer shared by two attributes (not expressible as a tree; the
 	//    model sees the same key twice)
 	for i := 0; i < nDag; i++ {
-		r.dag(i)
+		r.shared("object", i)
+		r.shared("attribute", i)
 	}
 	// 5. witness streams of the recorded findings
 	for _, w := range equalWitnesses() {
@@ -186,39 +185,23 @@ func (r *run) streams(tier string) {
 		r.checkPair(w[0], w[1], "witness-equal", "recursive reference hashes as the prefix built so far", 0)
 	}
 	for _, g := range viewWitnesses() {
-		r.checkGraph(g, "witness-views", true)
+		r.checkGraph(g, "witness-views", true, nil)
 	}
 	for _, g := range lossyWitnesses() {
-		r.checkGraph(g, "witness-lossy", false)
+		r.checkGraph(g, "witness-lossy", false, nil)
 	}
 	for i := 0; i < nDag/4; i++ {
 		g := &gen{r: r.rng, cfg: genCfg{maxDepth: 3, maxUsers: 2, maxFields: 3, lossy: true}}
-		r.checkGraph(g.graph(), "witness-lossy", false)
+		r.checkGraph(g.graph(), "witness-lossy", false, nil)
 	}
 }
 
-// dag: hashes of a graph in which one *Object is the type of two attributes.
-func (r *run) dag(i int) {
-	g := &gen{r: r.rng, cfg: genCfg{maxDepth: 2, maxUsers: 1, maxFields: 3}}
+// shared: a generated graph in which one node is then used in several places (what the
+// tree shaped description cannot express): one *Object as the type of several
+// attributes, or one *AttributeExpr as the attribute of several fields and array elements.
+func (r *run) shared(kind string, i int) {
+	g := &gen{r: r.rng, cfg: genCfg{maxDepth: 2 + r.rng.Intn(2), maxUsers: 2, maxFields: 3}}
 	gr := g.graph()
-	b := buildGraph(gr)
-	var shared *expr.Object
-	for _, o := range reach(b.root).objs {
-		shared = o
-	}
-	if shared == nil {
-		return
-	}
-	root := &expr.AttributeExpr{Type: &expr.Object{
-		{Name: "p", Attribute: &expr.AttributeExpr{Type: shared}},
-		{Name: "q", Attribute: &expr.AttributeExpr{Type: &expr.Array{ElemType: &expr.AttributeExpr{Type: shared}}}},
-		{Name: "r", Attribute: b.root},
-	}}
-	in := Input{Stream: "shared-object", Graph: gr, Note: fmt.Sprintf("root = {p: O, q: [O], r: graph} with O the last object of the graph (#%d)", i)}
-	r.addInput(in)
-	hs := r.stable(root.Type, in)
-	r.graphCase(&built{root: root}, hs, nil, in)
-	c := expr.Dup(root.Type)
-	r.sameHashes("copy-changes-hash/shared-object", "Dup(t) vs t (one Object shared by two attributes)", hs, hashAll(c), in)
-	r.res.Count("shared_object_graphs")
+	r.checkGraph(gr, "shared-"+kind, false, &Share{Kind: kind, Index: r.rng.Intn(8)})
+	r.res.Count("shared_" + kind + "_graphs")
 }
